@@ -121,13 +121,9 @@ Definition ob_no_elts (o : objb) : bool :=
 Section Enc.
   Variable re : pat -> str -> bool.
 
-  (* !~"^(n1|n2|..)$" built by excludeFields: empty names are skipped when the
-     regexp is built, and an empty alternative list gives ^()$  (QUIRK) *)
-  Definition excluded_by_names (names : list str) (k : str) : bool :=
-    match filter (fun n => negb (str_eqb n [])) names with
-    | [] => str_eqb k []
-    | ns => mem_str k ns
-    end.
+  (* !~"^(n1|n2|..)$" built by excludeFields from the names of the properties
+     (no such conjunct at all when there are no names) *)
+  Definition excluded_by_names (names : list str) (k : str) : bool := mem_str k names.
 
   Definition addl_applies (a : addl) (k : str) : option expr :=
     match a with
@@ -177,18 +173,18 @@ Section Enc.
   Definition add_dev (cls : list nat) (s : state) :=
     mkS (st_A s) (st_K s) (st_all s) (st_C s) (st_obj s) (st_prefix s) (st_rest s) (st_bad s) (st_poison s) (st_dev s ++ cls).
   (* deviation classes *)
-  Definition DEV_allOf_count := 1%nat.       (* matchN(len(items), kept members) *)
+  (* class 1 (matchN(len(items), kept members)) is fixed in the tree: constraintAllOf counts len(a) *)
   Definition DEV_allOf_false := 2%nat.       (* `false` dropped from allOf *)
   Definition DEV_propertyNames := 3%nat.     (* {[names]: _} does not restrict names *)
   Definition DEV_required_closed := 4%nat.   (* close({.. name!: _}) admits a non-property *)
   Definition DEV_prefixItems := 5%nat.       (* [a, b, ...] needs the whole prefix *)
-  Definition DEV_empty_name := 6%nat.        (* !~"^(..)$" built from property names, empty name *)
+  (* class 6 (exclusion regexp of additionalProperties and the empty property name) is fixed in the tree *)
   Definition DEV_error_argument := 7%nat.    (* matchIf / list.MatchN called on an error value *)
   Definition DEV_duplicate_property := 8%nat.
   Definition DEV_oneOf_false := 9%nat.
   Definition DEV_closed_open := 12%nat.      (* close({..}) & {...}: closedness lost by the evaluator *)
   Definition DEV_error_member := 11%nat.     (* an error value inside a matchN list (evaluator interactions) *)
-  Definition DEV_integer_and_number := 10%nat. (* type list with "integer" and "number": int stays *)
+  (* class 10 (type list with "integer" and "number") is fixed in the tree *)
   Definition dev_if (b : bool) (cls : nat) (s : state) := if b then add_dev [cls] s else s.
   (* constraintInfo.add on s.all: `_` is dropped *)
   Definition add_all (s : state) (e : expr) :=
@@ -221,12 +217,10 @@ Section Enc.
                        | TyInteger, TyInteger | TyNumber, TyNumber => true
                        | _, _ => false end) tys.
 
+  (* "integer" restricts numbers to int unless "number" is listed as well *)
+  Definition int_only (tys : list tyname) : bool := has_ty TyInteger tys && negb (has_ty TyNumber tys).
   Definition step_type (tys : list tyname) (s : state) : state :=
-    let s := dev_if (has_ty TyInteger tys && has_ty TyNumber tys) DEV_integer_and_number s in
-    let s1 := fold_left (fun s t => match t with
-                                    | TyInteger => add_C s TNum (num_pred is_int)
-                                    | _ => s
-                                    end) tys s in
+    let s1 := if int_only tys then add_C s TNum (num_pred is_int) else s in
     set_A s1 (mand (st_A s1) (fold_left (fun m t => mor m (mask_of_tyname t)) tys mnone)).
 
   Definition const_pred (c : json) : expr := e_other (fun j => json_eqb j c).
@@ -295,17 +289,15 @@ Section Enc.
     let kept := filter r_hasC rs in
     let a := map r_e kept in
     let known := fold_left (fun m r => mor m (r_K r)) kept mnone in
-    (* QUIRKs: a member `false` has no constraints and is dropped; the count of
-       matchN is the number of members, not the number of kept members *)
+    (* QUIRK: a member `false` has no constraints and is dropped *)
     let s := dev_if (existsb (fun r => is_err (r_e r) && negb (r_hasC r) && negb (mempty (r_A r))) rs) DEV_allOf_false s in
-    let s := dev_if (Nat.leb 2 (length kept) && negb (Nat.eqb (length kept) nitems)) DEV_allOf_count s in
     let s := set_A s A' in
     match a with
     | [] => s
     | [x] => add_all (set_K s (mand (st_K s) known)) x
     | _ =>
-      (* QUIRK: the count is len(items), not len(a) *)
-      add_all (set_K s (mand (st_K s) known)) (e_other (matchN_eq nitems a))
+      (* the count is the number of members that were kept: len(a) *)
+      add_all (set_K s (mand (st_K s) known)) (e_other (matchN_eq (length a) a))
     end.
 
   Definition step_anyOf (nitems : nat) (rs : list result) (s : state) : state :=
@@ -394,9 +386,6 @@ Section Enc.
     if ob_no_elts o then
       set_obj s (mkO (ob_fields o) (ob_pats o) (Some (AddlAll (r_e r))) AllFieldsCovered)
     else
-      let names := map f_name (ob_fields o) in
-      let s := dev_if (mem_str [] names ||
-                       match filter (fun n => negb (str_eqb n [])) names with [] => true | _ => false end) DEV_empty_name s in
       set_obj s (mkO (ob_fields o) (ob_pats o)
                      (Some (AddlExcept (map fst (ob_pats o)) (map f_name (ob_fields o)) (r_e r)))
                      AllFieldsCovered).
